@@ -174,12 +174,14 @@ def tsan_pass(ctx, ex, configs, reps, stats):
     n = 0
     for (b, e, k), r in zip(tasks, ex.map(lambda t: execute(t[0], t[1], [], tree='tsan', free=True, timeout=60), tasks)):
         n += 1
-        if 'ThreadSanitizer' in r['stderr']:
+        if 'WARNING: ThreadSanitizer' in r['stderr']:      # a report; runtime-internal messages (FATAL, CHECK failed under memory pressure) are not reports
             m = re.search(r'WARNING: ThreadSanitizer: ([^\n(]*)', r['stderr'])
             fn = re.search(r'#0 (\S+) ', r['stderr'])
             ctx.add_violation(Violation('tsan', (m.group(1).strip() if m else 'report') + '/' + (fn.group(1) if fn else '?'),
                                         'ThreadSanitizer report in free-running bodies %s env %s:\n%s' % (b, e, r['stderr'][:2500]),
                                         {'schedule': [], 'bodies': b, 'env': e, 'free': True, 'tsan': True}))
+        elif 'ThreadSanitizer' in r['stderr']:
+            stats['tsan_runtime_failures'] = stats.get('tsan_runtime_failures', 0) + 1     # the sanitizer runtime itself failed (e.g. out of memory): no verdict
         else:
             for vv in judge(b, e, [], r, free=True):
                 ctx.add_violation(vv)
@@ -217,7 +219,7 @@ def replay(case):
         out = []
         for _ in range(20):
             r = execute(case['bodies'], case['env'], [], tree='tsan', free=True, timeout=60)
-            if 'ThreadSanitizer' in r['stderr']:
+            if 'WARNING: ThreadSanitizer' in r['stderr']:
                 m = re.search(r'WARNING: ThreadSanitizer: ([^\n(]*)', r['stderr'])
                 fn = re.search(r'#0 (\S+) ', r['stderr'])
                 out.append(Violation('tsan', (m.group(1).strip() if m else 'report') + '/' + (fn.group(1) if fn else '?'), r['stderr'][:2500], case))
